@@ -67,6 +67,7 @@ PROBES = {
         "pristine-compared",
         "compose-observed",
         "pickled-map-observed",
+        "analysis-continued-on-derived-map",
     ]
 }
 
@@ -529,6 +530,39 @@ class World(object):
                     st.hit("probe:compose-observed")
                 except Exception as e:
                     self.maps[op["id"]] = {"key": ("compose",) + a["key"] + b["key"], "m": None, "exc": type(e).__name__, "born": self.step_no, "fresh": True}
+            elif k == "extend":
+                # the analysis goes on from a stored map: a working copy is derived from
+                # it and further instructions are executed on the copy (what an emulator
+                # or a path explorer does); the stored map must stay what it was
+                mp = self.maps.get(op["map"])
+                blk = self.blocks.get(op["block"])
+                if mp is None or mp["m"] is None or blk is None or not isinstance(blk["instrs"], list):
+                    return None
+                how = op["how"]
+                # going on from an already large map multiplies expression sizes at every
+                # instruction (amoco's simplifier is exponential there: a C01/C17 matter)
+                from ..heap import tree_size
+
+                if sum(tree_size(v) for _, v in mp["m"]) > 600 or len(blk["instrs"]) > 4:
+                    st.hit("extend-skipped:large-map")
+                    return None
+                try:
+                    if how == "use":
+                        d = mp["m"].use()
+                    elif how == "eval-empty":
+                        d = mp["m"].eval(mapper())
+                    elif how == "assume-empty":
+                        d = mp["m"].assume([])
+                    elif how == "rshift-empty":
+                        d = mp["m"] >> mapper()
+                    else:
+                        d = mapper() >> mp["m"]
+                    for i in blk["instrs"]:
+                        i(d)
+                    self.maps[op["id"]] = {"key": ("extend", how) + mp["key"] + (blk["isa"], tuple(blk["ins"]), blk["addr"]), "m": d, "born": self.step_no, "fresh": True}
+                    st.hit("probe:analysis-continued-on-derived-map")
+                except Exception as e:
+                    self.maps[op["id"]] = {"key": ("extend", how) + mp["key"] + (blk["isa"], tuple(blk["ins"]), blk["addr"]), "m": None, "exc": type(e).__name__, "born": self.step_no, "fresh": True}
             elif k == "str":
                 mp = self.maps.get(op["map"])
                 if mp is not None and mp["m"] is not None:
@@ -737,7 +771,7 @@ class Gen(object):
             return self.pending.pop(0)
         c = r.choice(self.clients)
         ci = self.clients.index(c)
-        kinds = [("new", 3), ("eval_old", 5), ("rebuild", 3), ("remap", 1.5), ("elsewhere", 1), ("compose", 1), ("str", 1), ("pickle", 0.7), ("exec1", 1.5), ("abort", 0.8), ("mode", 0.3)]
+        kinds = [("new", 3), ("eval_old", 5), ("rebuild", 3), ("remap", 1.5), ("elsewhere", 1), ("compose", 1), ("extend", 2.5), ("str", 1), ("pickle", 0.7), ("exec1", 1.5), ("abort", 0.8), ("mode", 0.3)]
         k = weighted(r, kinds)
         if k == "new" or not c["blocks"]:
             if len(c["blocks"]) >= 12:
@@ -786,6 +820,13 @@ class Gen(object):
             c["maps"].append(mid)
             self.pending = [{"op": "eval", "map": mid, "salts": [0], "client": ci}]
             return {"op": "compose", "id": mid, "m1": r.choice(c["maps"][:-1]), "m2": r.choice(c["maps"][:-1]), "client": ci}
+        if k == "extend" and c["maps"] and c["blocks"]:
+            mid = self.newid("m")
+            src = r.choice(c["maps"])
+            c["maps"].append(mid)
+            # afterwards: the derived map is observed, and so is the stored one again
+            self.pending = [{"op": "eval", "map": mid, "salts": [0], "client": ci}, {"op": "eval", "map": src, "salts": list(range(SALTS)), "client": ci}]
+            return {"op": "extend", "id": mid, "map": src, "block": r.choice(c["blocks"]), "how": r.choice(["use", "use", "eval-empty", "assume-empty", "rshift-empty", "lshift-empty"]), "client": ci}
         if k == "str" and c["maps"]:
             return {"op": "str", "map": r.choice(c["maps"]), "block": r.choice(c["blocks"]), "client": ci}
         if k == "pickle" and c["maps"]:
